@@ -743,10 +743,20 @@ func runC13(c *Ctx) error {
 		}
 		for _, body := range []string{"    depends: [x]\n", ""} {
 			doc := fmt.Sprintf("name: p\narch: amd64\nversion: 1.0.0\noverrides:\n  %q:\n%s", name, body)
-			cfgP, err := nfpm.Parse(strings.NewReader(doc))
-			if err == nil {
-				err = cfgP.Validate()
-			}
+			var err error
+			func() {
+				// a crash inside the parser is an outcome to report with its input (family empty-block does), not a reason
+				// to lose the run
+				defer func() {
+					if r := recover(); r != nil {
+						err = fmt.Errorf("panic: %v", r)
+					}
+				}()
+				cfgP, perr := nfpm.Parse(strings.NewReader(doc))
+				if err = perr; err == nil {
+					err = cfgP.Validate()
+				}
+			}()
 			if err == nil {
 				c.Rep.Find(report.Finding{Property: "C13", Family: "override-block-names", Shape: "parse-and-validate-accept-unknown-override", What: fmt.Sprintf("nfpm.Parse and Config.Validate accepted an override block for %q", name), Input: map[string]any{"document": doc}})
 			}
